@@ -69,7 +69,21 @@ pub async fn run_ls(cmd_args: CmdArgs) -> Result<(), Box<dyn Error + Sync + Send
     };
 
     let (id, params) = connection.initialize_start()?;
-    let initialization_params: InitializeParams = serde_json::from_value(params).unwrap();
+    let initialization_params: InitializeParams = match serde_json::from_value(params) {
+        Ok(params) => params,
+        Err(err) => {
+            // the initialize request must be answered even when its params do not deserialize
+            let response = ::lsp_server::Response::new_err(
+                id,
+                ::lsp_server::ErrorCode::InvalidParams as i32,
+                format!("invalid initialize params: {err}"),
+            );
+            connection.sender.send(response.into())?;
+            return Err(Box::new(ExitError(format!(
+                "invalid initialize params: {err}"
+            ))));
+        }
+    };
     let server_capabilities = server_capabilities(&initialization_params.capabilities);
     let initialize_data = serde_json::json!({
         "capabilities": server_capabilities,
